@@ -1,4 +1,4 @@
-#!/usr/bin/env python3
+#!/usr/bin/env python3-vt
 """Regenerates /verif/MANIFEST.json from the table below (and validates it against the schema)."""
 import json, os, sys
 
@@ -46,6 +46,38 @@ _hist("C19", "A directory listing after every API return (successful or failed) 
 _hist("C24", "Tickets granting a capacity a few bytes to kilobytes above the current payload end, then whole and chunked puts with and without commits and restarts; after every call each frame's payload end is compared with the granted capacity, an incompressible payload that cannot fit must be refused, and refused puts are monitored for write-class syscalls.")
 _hist("C25", "Ticket sequences (fresh, stale, equal, negative) interleaved with commits, clean restarts and process death: a ticket is accepted only if its number exceeds every number accepted before (model survives restart); rejected tickets issue no write-class syscall and leave the ticket state unchanged; signed tickets with random signatures, wrong memory ids or on unbound memories are rejected. Acceptance of an authentic signed ticket is out of reach (no private key).")
 _hist("C42", "Histories with deletes and updates (including payload-reusing updates) followed by vacuum, directly or through doctor: frame table and exact contents equal the model afterwards, verify right after the vacuum reports Passed, and the file reopens.")
+
+
+CLAIMED["C12"] = ("memsim", "exploration", "deterministic simulation: seeded ACL corpora and caller contexts over every retrieval entry point, on pending, committed, recovered, read-only and doctored states, vs a reference policy evaluator",
+    "Corpora whose documents carry random ACL metadata (absent, valid public/restricted for two tenants, malformed, JSON-quoted, padded, mixed case), re-labelled by updates, queried through search, vec_search_with_embedding_acl, search_adaptive_acl and ask with random caller contexts: under Enforce no hit, context fragment or citation may name a frame that a reference evaluator of the documented policy denies (judged on the metadata the file stores and on the metadata given at put time), the context text must not carry a denied document's unique token, Enforce without tenant must fail, Audit must answer exactly like no context.",
+    "The property has no fault or schedule dimension of its own; it is judged over simulator-reached states (records pending, recovery after process death, read-only handles, doctor). Trusted: the reference evaluator in sim/src/acl.rs.", "DESIGN.md section 7 C12")
+CLAIMED["C17"] = ("memsim", "exploration", "deterministic simulation: a second writer / doctor / raw flock probe injected after random steps of a first writer's seeded history (API-call granularity, virtual lock timeout)",
+    "C01-style histories of a first writer with a second actor inserted after random steps: a writable Memvid::open of the same path through an independent open file description, Memvid::doctor on the path, or flock(LOCK_EX|LOCK_NB) on a fresh descriptor. Every attempt made while the first writable handle is alive must fail; when one succeeds both writers commit and the reopened file is checked for a lost commit. The lock's 200 x 50 ms retry loop runs on the virtual clock.",
+    "A second process is simulated by a second open file description in the same process (flock conflicts between open file descriptions exactly as between processes). Interleaving is at API-call granularity. Known finding: the lock stays on the pre-commit inode (KNOWN_FINDINGS.jsonl).", "DESIGN.md section 7 C17")
+CLAIMED["C20"] = ("memsim", "fault_enumeration", "deterministic simulation: medium faults at rest (bit flips, zeroed/garbage ranges, truncation, lost/misdirected writes, splices) addressed by structure, then open + read-back vs the pristine observation",
+    "A seeded history produces a committed, closed file; 40 (quick) / 300 (thorough) faults per file are applied at rest, addressed by structure (header fields, WAL, each payload, index region, TOC, footer). Each faulted copy is opened read-only and writable and read frame by frame: every read must fail or return the committed fields, payload and embedding; verify(deep) must not report Passed for a file from which a read returns something else.",
+    "Sampled by seed, densely per structure; the exhaustive single-byte enumeration the property text mentions is not performed. Lost writes are rebuilt from the recorded syscall log.", "DESIGN.md section 7 C20")
+CLAIMED["C21"] = ("memsim", "fault_enumeration", "deterministic simulation: doctor on files damaged at rest in the structures it claims to repair (header pointer, TOC checksum, footer, index region), all option combinations, dry run under the syscall monitor",
+    "The same faulted images restricted to repairable structures are given to doctor with random options: a dry run must not change the file; when doctor reports success the file must open, every committed frame must read back unchanged, verify(deep) must pass and a second doctor run with default options must report Clean. Doctor and vacuum-through-doctor also run inside the C06/C07/C42 histories (crash-left files with pending records).",
+    "Faults sampled by seed. The committed content is what a read-only open of the pristine file returns.", "DESIGN.md section 7 C21")
+CLAIMED["C22"] = ("memsim", "fault_enumeration", "deterministic simulation: open / open_read_only / verify / doctor_plan / doctor / read battery on simulator-produced damaged files under catch_unwind, syscall budget and watchdog",
+    "Every faulted image (bit flips, zeroing, garbage, truncation, lost and misdirected writes, splices) is given to verify, open_read_only, open, a read battery (stats, timeline, search, frame text, blob readers, vector search), doctor_plan and doctor; each call must return Ok or Err: a panic (caught per call) or a child that exceeds the watchdog is a violation.",
+    "Inputs are images reachable by simulated faults on real files, not arbitrary byte strings. The wall-clock watchdog (400 s per run) is a backstop only.", "DESIGN.md section 7 C22")
+CLAIMED["C23"] = ("memsim", "exploration", "deterministic simulation: the same explicit history executed in fresh processes under different clocks, entropy streams, paths and short-I/O patterns; call outcomes, logical observation and file bytes compared",
+    "Each seeded history (explicit timestamps) runs four times, each in a fresh forked process on a fresh path: base environment; different clock origin/skew/jumps; different entropy (segment UUIDs, staging names, hash seeds); different path plus injected short writes and short reads. Call outcomes and the logical observation must be identical; file bytes are compared region by region and differences are attributed to the structure they fall in.",
+    "Known findings: random Tantivy segment names and the wall-clock tombstone timestamp reach the file bytes (KNOWN_FINDINGS.jsonl). Tantivy's own threads are not scheduled by the simulator; their entropy is keyed by thread lineage.", "DESIGN.md section 7 C23")
+CLAIMED["C26"] = ("memsim", "exploration", "deterministic simulation: seeded histories of card-producing documents, instant indexing and enrichment requests with commits, restarts and process death; every derived record checked against the frame it names",
+    "Documents whose text the rules engine turns into memory cards (values unique per document) are put with and without instant indexing and background-enrichment requests, mixed with whole and chunked documents, commits, clean restarts and process death so that log sequence numbers and frame ids diverge. At every commit, reopen and read-only open each extracted card's source_frame_id must name a frame whose text contains the card's value; on read-only handles the enrichment queue is drained and every entry must name a document that asked for enrichment.",
+    "Trusted: frame_text_by_id for the text of a frame. Queue completeness is not asserted (entries live in the TOC, not in the log).", "DESIGN.md section 7 C26")
+CLAIMED["C27"] = ("memsim", "exploration", "deterministic simulation: seeded put_memory_card / mesh / commit / restart / process-death histories vs a reference model, with temporal queries at random times",
+    "Random cards (entities, slots, kinds, event/document dates with ties and gaps, explicit created_at, version relations incl. retractions) and logic-mesh nodes/edges are added between documents, commits, clean restarts and process death. get_memory_at_time / get_current_memory at random times are compared with a reference (newest non-retracted effective time not after t; never a retraction; never from the future; equal to current at or beyond the latest card). At every commit, reopen, read-only open and crash image the caller-made card set and the mesh must equal the model's.",
+    "Cards and mesh entries are not logged: they become durable at the next commit; the model loses un-committed ones on process death. Ties in effective time: any tied card is accepted.", "DESIGN.md section 7 C27")
+CLAIMED["C31"] = ("memsim", "exploration", "deterministic simulation: find_last_valid_footer vs a naive reference scan on every faulted image the simulator produces (footer-targeted faults included)",
+    "On every medium-fault image (flips and garbage in footer fields, stale footers left by truncation and splices, misdirected copies of footers) the public find_last_valid_footer is compared with a naive scan that returns the last offset at which magic, length and hash of a footer are all consistent.",
+    "Domain: images reachable by simulated faults from real files, not all byte strings.", "DESIGN.md section 7 C31")
+CLAIMED["C40"] = ("memsim", "exploration", "deterministic simulation: the same seeded document set ingested through the bulk paths and through plain puts under one simulated environment; differential comparison live and after reopen",
+    "A seeded document set is ingested twice into fresh files: plain puts + commit, and begin_batch/end_batch with random options (skip_sync, compression level, disable_auto_checkpoint, pre-sized log) and/or several commit_skip_indexes + finalize_indexes. Frames, contents, metadata, embeddings, timeline, searches (sketch on/off) and vector searches are compared on the live handles and after reopening. The durability clause of skip_sync is decided by C03's power-loss images over histories that contain batches.",
+    "Physical placement (offsets, stored sizes) is excluded: batch options change the compression level on purpose. Known finding: no sketch entries on the skip-index path (KNOWN_FINDINGS.jsonl).", "DESIGN.md section 7 C40")
 
 NA = {
  "C30": "pure function of an in-memory value or byte slice (header/footer/TOC/time-index codecs): no schedule, clock, fault or history for a simulator to control",
